@@ -234,4 +234,111 @@ def r20_7(ctx: Ctx) -> RuleResult:
     return r1_14(ctx, "R20.7")
 
 
-RULES = [r20_1, r20_2, r20_3, r20_4, r20_5, r20_6, r20_7]
+#: a document whose locations cover what the property names: member names with the escaped characters, names that
+#: look like integers (canonical, leading zero, negative) next to arrays, the empty name, blanks, non-ASCII, nesting
+EDIT_DOC = {"a": {"0": "zero", "1": [10, {"x/y": 1, "~": 2, "~1": 3}], "01": "lead", "-1": "neg"}, "": [[], {"": 0}], "0": ["first", "second"], "k l": {"\u00e9": [None]},
+            "t": True, "arr": [[1, 2], [3]], "10": "ten", "1": {"0": {"00": 1}},
+            # equal values at several positions (equal also in Python's sense: 1 == True == 1.0, 0 == False)
+            "dup": ["start", "retry", "fail", "retry", 1, True, 1.0, 0, False, [1], [1], {"k": 0}, {"k": False}, None, None],
+            # names a pointer *text* would read differently (backslash sequences, the key markers `~` / `#` in front of a
+            # sibling's name, signed / padded / non-ASCII digits), each next to the sibling it could be taken for
+            "n": {"\\u0041": [1], "A": [2], "C:\\temp\\new.txt": 3, "\\": 4, "\\/": 5, "/": 6, "~a": 7, "a": 8, "#0": 9, "0": 10, "-0": 11, "+1": 12, "1": 13, " 1": 14,
+                  "1_0": 15, "\uff11": 16, "1e0": 17, "#a": 18, "~0": 19, "~": 20, "9007199254740993": {"deep": 21}}}
+
+
+def r20_8(ctx: Ctx) -> RuleResult:
+    """The property itself on a covering document, by abstract execution (rules/model.py; exceptions as they run, the
+    document changed in place): for every location of EDIT_DOC - its parts typed as the selectors type them (R20.7: a
+    member name is a str, an array index an int) - the pointer of a match at that location is used as the target of
+    `test` (with the value found there), `replace` and `remove`; `test` must pass and leave the document alone,
+    `replace` must give the document that differs at exactly that location, `remove` the document without exactly that
+    member or element."""
+    import copy as _copy
+
+    from sa.peval import UNKNOWN
+
+    from . import rfc6902
+    from .model import RAISES
+    from .model import MObj
+    from .model import Model
+
+    rr = RuleResult("R20.8", "a match's pointer used as a patch target edits exactly the matched location (covering document)", floor=60)
+    mcls = ctx.repo.require_class("jsonpath.match.JSONPathMatch")
+    pfn = ctx.repo.find_method(mcls, "pointer")
+    if pfn is None:
+        raise AnalysisError("R20.8: JSONPathMatch.pointer not found")
+    locations: List[Tuple[Tuple[object, ...], object]] = []
+
+    def walk(v: object, parts: Tuple[object, ...]) -> None:
+        locations.append((parts, v))
+        if isinstance(v, dict):
+            for k, x in v.items():
+                walk(x, parts + (k,))
+        elif isinstance(v, list):
+            for i, x in enumerate(v):
+                walk(x, parts + (i,))
+
+    walk(EDIT_DOC, ())
+
+    def edited(parts: Tuple[object, ...], how: str) -> object:
+        doc = _copy.deepcopy(EDIT_DOC)
+        if not parts or how == "test":
+            return {"replaced": [1]} if how == "replace" else doc
+        parent = doc
+        for p_ in parts[:-1]:
+            parent = parent[p_]  # type: ignore[index]
+        if how == "replace":
+            parent[parts[-1]] = {"replaced": [1]}  # type: ignore[index]
+        else:
+            del parent[parts[-1]]  # type: ignore[arg-type]
+        return doc
+
+    for parts, node in locations:
+        where = "$" + "".join(f"[{p_!r}]" for p_ in parts)
+        for how in ("test", "replace", "remove"):
+            if how == "remove" and not parts:
+                continue
+            model = Model(ctx, "R20.8")
+            model.whole_bodies = model.auto_construct = model.exact_exceptions = model.heap = True
+            doc = _copy.deepcopy(EDIT_DOC)
+            here = doc
+            for p_ in parts:
+                here = here[p_]  # type: ignore[index]
+            match = model.new("jsonpath.match.JSONPathMatch", filter_context={}, obj=here, parent=None, path=where, parts=parts, root=doc)
+            ptr = model.call(match, "pointer", [])
+            if ptr is RAISES:
+                rr.bad(pfn, pfn.node, f"the match at {where} has no pointer: pointer() raises {str(model.last_raised).split('.')[-1]}", construct=f"pointer() at {where} raises")
+                break
+            if not isinstance(ptr, MObj):
+                raise AnalysisError(f"R20.8: the pointer of the match at {where} cannot be determined")
+            patch = model.new("jsonpath.patch.JSONPatch")
+            target: object = ptr
+            text0 = ptr.fields.get("_s")
+            if how == "remove" and isinstance(text0, str) and "\\" not in text0 and not any(len(str(p_)) > 15 for p_ in parts):  # noqa: PLR2004
+                # ... and, for every other location, in its text form (what goes into a JSON Patch document); names with a
+                # backslash and integers beyond the index limits are the known findings of R3.6 and stay with the object form
+                target = text0
+            args = [target, _copy.deepcopy(node)] if how == "test" else ([target, {"replaced": [1]}] if how == "replace" else [target])
+            built = model.call(patch, how, args)
+            if built is RAISES:
+                rr.bad(pfn, pfn.node, f"the pointer of the match at {where} ({ptr.fields.get('_s')!r}) is refused as the target of `{how}`: {model.last_raised}",
+                       construct=f"{how} at {where}: builder raises")
+                continue
+            got = model.call(patch, "apply", [doc])
+            text = ptr.fields.get("_s")
+            if got is UNKNOWN:
+                raise AnalysisError(f"R20.8: the result of `{how}` at {where} cannot be determined")
+            if got is RAISES:
+                rr.bad(pfn, pfn.node, f"`{how}` with the pointer of the match at {where} ({text!r}) fails: {str(model.last_raised).split('.')[-1]} - the pointer does not "
+                       "address the matched location", construct=f"{how} at {where} raises")
+                continue
+            want = edited(parts, how)
+            if rfc6902.jeq(got, want):
+                rr.ok(pfn.loc(), f"{how} at {where} via {text!r}")
+            else:
+                rr.bad(pfn, pfn.node, f"`{how}` with the pointer of the match at {where} ({text!r}) gives {got!r:.140}; addressing that location directly gives {want!r:.140}",
+                       construct=f"{how} at {where} edits another location")
+    return rr
+
+
+RULES = [r20_1, r20_2, r20_3, r20_4, r20_5, r20_6, r20_7, r20_8]
